@@ -128,6 +128,18 @@ func recoverFunc(runInfo *runInfoStruct) {
 	}
 }
 
+// unalias returns v itself unless v is addressable (an element of a slice or array, a struct field):
+// such a value is a view of that storage, and a variable bound to it would change when the
+// container does. The copy has storage of its own.
+func unalias(v reflect.Value) reflect.Value {
+	if !v.IsValid() || !v.CanAddr() {
+		return v
+	}
+	c := reflect.New(v.Type()).Elem()
+	c.Set(v)
+	return c
+}
+
 func isNil(v reflect.Value) bool {
 	switch v.Kind() {
 	case reflect.Chan, reflect.Func, reflect.Interface, reflect.Map, reflect.Ptr, reflect.Slice:
